@@ -15,9 +15,9 @@ Ltac fin_cb :=
   split; [first [assumption | match goal with L2 : forall t, Forall _ _ |- _ => apply L2 end]|];
   split; [intros; try discriminate; try (simpl; lia) | intros; try discriminate; try reflexivity].
 
-Lemma check_behind_spec fl st s :
+Lemma check_behind_spec sized fl st s :
   uinv fl st ->
-  let i := check_behind st s in
+  let i := check_behind sized st s in
   uinv fl (br_st i) /\ u_remote (br_st i) = u_remote st /\ u_pos (br_st i) = u_pos st /\
   Forall (listing_ok fl) (br_trace i) /\
   (br_ok i = true -> br_corrupt i = false -> maxl (u_remote st) <= maxl (u_local (br_st i))) /\
@@ -34,10 +34,10 @@ Proof.
   destruct (N.eqb (maxl (u_remote st)) 0) eqn:E0; [apply N.eqb_eq in E0; fin_cb|].
   destruct (N.leb (maxl (u_remote st)) (maxl (u_local st))) eqn:E1; [apply N.leb_le in E1; fin_cb|].
   destruct (next_outcome s1) as [o2 s2].
-  destruct o2; fin_cb.
+  destruct o2; try fin_cb. destruct sized; fin_cb.
 Qed.
 
-Lemma check_behind_nil st : check_behind st [] =
+Lemma check_behind_nil sized st : check_behind sized st [] =
   let rmax := maxl (u_remote st) in
   if N.eqb rmax 0 then mkBR true st false [] [mkC 0 0 (u_remote st)]
   else if N.leb rmax (maxl (u_local st)) then mkBR true st false [] [mkC 0 0 (u_remote st)]
@@ -49,18 +49,18 @@ Proof.
 Qed.
 
 (** the local level-0 set right after init (before db.Sync adds to it) *)
-Definition local_after_init (b : bst) (s : list coutcome) : list N :=
-  if b_init b then u_local (b_u b) else u_local (br_st (check_behind (b_u b) s)).
+Definition local_after_init (sized : bool) (b : bst) (s : list coutcome) : list N :=
+  if b_init b then u_local (b_u b) else u_local (br_st (check_behind sized (b_u b) s)).
 
 Definition binv (fl : N) (b : bst) : Prop :=
   uinv fl (b_u b) /\
   (b_init b = true -> b_corrupt b = false -> maxl (u_remote (b_u b)) <= maxl (u_local (b_u b))).
 
 (** one SyncAndWait, any schedule: the invariant is kept; nil means IN SYNC *)
-Theorem sync_wait_spec : forall fl b s la,
+Theorem sync_wait_spec : forall sized fl b s la,
   binv fl b ->
-  maxl (local_after_init b s) <= maxl la ->          (* db.Sync only appends above the local position *)
-  let '(b', o) := sync_wait b s la in
+  maxl (local_after_init sized b s) <= maxl la ->          (* db.Sync only appends above the local position *)
+  let '(b', o) := sync_wait sized b s la in
   binv fl b' /\
   Forall (listing_ok fl) (so_trace o) /\
   (so_err o = E_NIL ->
@@ -68,7 +68,7 @@ Theorem sync_wait_spec : forall fl b s la,
      so_pos o = maxl (u_remote (b_u b')) /\ maxl (u_remote (b_u b')) = maxl la /\
      forall t, In t la -> fl <= t -> In t (u_remote (b_u b'))).
 Proof.
-  intros fl b s la (Hu & Hb) Hg. unfold sync_wait.
+  intros sized fl b s la (Hu & Hb) Hg. unfold sync_wait.
   destruct (b_corrupt b) eqn:EC.
   { split; [split; [exact Hu | intros _ X; congruence]|]. split; [constructor|]. unfold E_CLIENT, E_NIL. simpl. discriminate. }
   unfold local_after_init in Hg.
@@ -117,37 +117,59 @@ Proof.
   destruct (b_init b) eqn:EI.
   - apply (Core (mkBR true (b_u b) false s [])); simpl;
       [exact Hu | constructor | intros _ _; apply Hb; auto | intros X; discriminate | exact Hg].
-  - destruct (check_behind_spec fl (b_u b) s Hu) as (A & B & C & D & E & F).
+  - destruct (check_behind_spec sized fl (b_u b) s Hu) as (A & B & C & D & E & F).
     apply Core; [exact A | exact D | rewrite B; exact E | exact F | exact Hg].
 Qed.
 
 (** states reachable from any process start over a replica that is a run *)
-Inductive breach : N -> bst -> Prop :=
-| breach_open : forall fl remote local, run fl remote -> breach fl (b_open remote local)
-| breach_sync : forall fl b s la, breach fl b ->
-    maxl (local_after_init b s) <= maxl la ->
-    breach fl (fst (sync_wait b s la)).
+Inductive breach (sized : bool) : N -> bst -> Prop :=
+| breach_open : forall fl remote local, run fl remote -> breach sized fl (b_open remote local)
+| breach_sync : forall fl b s la, breach sized fl b ->
+    maxl (local_after_init sized b s) <= maxl la ->
+    breach sized fl (fst (sync_wait sized b s la)).
 
-Lemma breach_inv fl b : breach fl b -> binv fl b.
+Lemma breach_inv sized fl b : breach sized fl b -> binv fl b.
 Proof.
   induction 1 as [fl remote local R | fl b s la Hb IH Hg].
   - split; [split; [exact R | simpl; congruence] | simpl; discriminate].
-  - pose proof (sync_wait_spec fl b s la IH Hg) as P. destruct (sync_wait b s la) as [b' o]. apply P.
+  - pose proof (sync_wait_spec sized fl b s la IH Hg) as P. destruct (sync_wait sized b s la) as [b' o]. apply P.
+Qed.
+
+(** with sizes in the listing (fix 086c0cc) a short read of the baseline is an
+    error like any other: the "corrupt local baseline" state is unreachable,
+    whatever the fault schedules were *)
+Lemma check_behind_sized_not_corrupt st s : br_corrupt (check_behind true st s) = false.
+Proof.
+  unfold check_behind. destruct (next_outcome s) as [o s1].
+  destruct (client_list o (u_remote st)); [|reflexivity].
+  destruct (N.eqb (maxl l) 0); [reflexivity|].
+  destruct (N.leb (maxl l) (maxl (u_local st))); [reflexivity|].
+  destruct (next_outcome s1) as [o2 s2]. destruct o2; reflexivity.
+Qed.
+
+Theorem never_corrupt_thm : forall fl b, breach true fl b -> b_corrupt b = false.
+Proof.
+  induction 1 as [fl remote local R | fl b s la Hb IH Hg]; [reflexivity|].
+  unfold sync_wait. rewrite IH.
+  destruct (b_init b).
+  - simpl. reflexivity.
+  - rewrite check_behind_sized_not_corrupt.
+    destruct (negb (br_ok (check_behind true (b_u b) s))); reflexivity.
 Qed.
 
 (** [no_false_ack] for histories that start with a (re)open in any local state:
     an acknowledged SyncAndWait means the positions are equal and everything
     local (above the retention floor) is stored *)
-Theorem ack_means_in_sync_thm : forall fl b s la, breach fl b ->
-  maxl (local_after_init b s) <= maxl la ->
-  let '(b', o) := sync_wait b s la in
+Theorem ack_means_in_sync_thm : forall sized fl b s la, breach sized fl b ->
+  maxl (local_after_init sized b s) <= maxl la ->
+  let '(b', o) := sync_wait sized b s la in
   so_err o = E_NIL ->
   so_pos o = maxl (u_remote (b_u b')) /\ maxl (u_remote (b_u b')) = maxl la /\ u_local (b_u b') = la /\
   (forall t, In t la -> fl <= t -> In t (u_remote (b_u b'))) /\
   gapless (u_remote (b_u b')) /\ Forall (fun c => gapless (c_after c)) (so_trace o).
 Proof.
-  intros fl b s la R Hg. pose proof (sync_wait_spec fl b s la (breach_inv fl b R) Hg) as P.
-  destruct (sync_wait b s la) as [b' o]. destruct P as ((Hu & _) & T & A). intros E.
+  intros sized fl b s la R Hg. pose proof (sync_wait_spec sized fl b s la (breach_inv sized fl b R) Hg) as P.
+  destruct (sync_wait sized b s la) as [b' o]. destruct P as ((Hu & _) & T & A). intros E.
   destruct (A E) as (_ & _ & A3 & A4 & A5 & A6).
   repeat split; auto.
   - apply (run_gapless fl). apply Hu.
@@ -155,27 +177,42 @@ Proof.
 Qed.
 
 (** an error of the listing during init is never swallowed *)
-Theorem init_listing_error_propagates_thm : forall b s la o0,
+Theorem init_listing_error_propagates_thm : forall sized b s la o0,
   b_init b = false -> b_corrupt b = false ->
   s = o0 :: nil \/ (exists tl, s = o0 :: tl) -> o0 <> Ok ->
-  so_err (snd (sync_wait b s la)) = E_CLIENT /\ b_init (fst (sync_wait b s la)) = false.
+  so_err (snd (sync_wait sized b s la)) = E_CLIENT /\ b_init (fst (sync_wait sized b s la)) = false.
 Proof.
-  intros b s la o0 EI EC Hs Ho.
+  intros sized b s la o0 EI EC Hs Ho.
   assert (exists tl, s = o0 :: tl) as (tl & ->) by (destruct Hs as [->|X]; eauto).
   unfold sync_wait. rewrite EC, EI. unfold check_behind. simpl next_outcome.
   destruct o0; try congruence; simpl; auto.
 Qed.
 
-(** [catch_up] after a (re)open: with no faults, one SyncAndWait succeeds
-    provided db.Sync leaves all the files above the replica's position *)
-Theorem catch_up_after_reopen_thm : forall fl b la, breach fl b ->
+(** a short read of the baseline file is an error too, and leaves init to be retried *)
+Theorem baseline_short_read_is_error_thm : forall b k tl la,
+  b_init b = false -> b_corrupt b = false ->
+  maxl (u_remote (b_u b)) <> 0 -> maxl (u_local (b_u b)) < maxl (u_remote (b_u b)) ->
+  let r := sync_wait true b (Ok :: ShortRead k :: tl) la in
+  so_err (snd r) = E_CLIENT /\ b_init (fst r) = false /\ b_corrupt (fst r) = false /\ u_local (b_u (fst r)) = [].
+Proof.
+  intros b k tl la EI EC H0 Hlt.
+  assert (L : N.leb (maxl (u_remote (b_u b))) (maxl (u_local (b_u b))) = false) by (apply N.leb_gt; exact Hlt).
+  apply N.eqb_neq in H0.
+  assert (CB : check_behind true (b_u b) (Ok :: ShortRead k :: tl)
+               = mkBR false (mkU (u_remote (b_u b)) (u_pos (b_u b)) []) false tl
+                      ([mkC 0 0 (u_remote (b_u b))] ++ [mkC 2 (maxl (u_remote (b_u b))) (u_remote (b_u b))])).
+  { unfold check_behind, next_outcome, client_list. rewrite H0, L. reflexivity. }
+  unfold sync_wait. rewrite EC, EI, CB. simpl. repeat split; reflexivity.
+Qed.
+
+(** the fault-free SyncAndWait of a state that is not corrupt *)
+Lemma catch_up_core : forall sized fl b la, binv fl b ->
   b_corrupt b = false ->
   maxl la <> 0 ->
-  maxl (local_after_init b []) <= maxl la ->
   (forall t, maxl (u_remote (b_u b)) < t <= maxl la -> In t la) ->
-  so_err (snd (sync_wait b [] la)) = E_NIL.
+  so_err (snd (sync_wait sized b [] la)) = E_NIL.
 Proof.
-  intros fl b la R EC Hn Hg Hl. pose proof (breach_inv fl b R) as (Hu & Hb).
+  intros sized fl b la (Hu & Hb) EC Hn Hl.
   unfold sync_wait. rewrite EC.
   assert (Fin : forall i, br_ok i = true -> br_corrupt i = false -> br_sched i = [] ->
             uinv fl (br_st i) -> u_remote (br_st i) = u_remote (b_u b) ->
@@ -194,7 +231,7 @@ Proof.
     simpl. rewrite E. reflexivity. }
   destruct (b_init b) eqn:EI.
   - apply (Fin (mkBR true (b_u b) false [] [])); simpl; auto.
-  - assert (CB : exists i, check_behind (b_u b) [] = i /\ br_ok i = true /\ br_corrupt i = false /\ br_sched i = [] /\
+  - assert (CB : exists i, check_behind sized (b_u b) [] = i /\ br_ok i = true /\ br_corrupt i = false /\ br_sched i = [] /\
                           uinv fl (br_st i) /\ u_remote (br_st i) = u_remote (b_u b)).
     { rewrite check_behind_nil. cbv zeta.
       destruct (N.eqb (maxl (u_remote (b_u b))) 0); [eexists; split; [reflexivity|]; simpl; auto|].
@@ -206,13 +243,29 @@ Proof.
     destruct CB as (i & -> & O & K & S & U & Rm). apply Fin; assumption.
 Qed.
 
-(** FINDING: after a short read (clean premature EOF) of the baseline file that
-    checkDatabaseBehindReplica fetches with a bare io.Copy, the truncated file
-    is published locally; every later SyncAndWait fails, faults or not. *)
-Theorem catch_up_after_short_baseline_read_refuted :
-  exists fl b, breach fl b /\ forall la, so_err (snd (sync_wait b [] la)) <> E_NIL /\ fst (sync_wait b [] la) = b.
+(** [catch_up] after a (re)open, for EVERY fault schedule of the history so far
+    (listing sizes reported): once faults have stopped, one SyncAndWait succeeds,
+    provided db.Sync leaves all the files above the replica's position — no
+    exception for a corrupt baseline any more: that state is unreachable *)
+Theorem catch_up_after_reopen_thm : forall fl b la, breach true fl b ->
+  maxl la <> 0 ->
+  (forall t, maxl (u_remote (b_u b)) < t <= maxl la -> In t la) ->
+  so_err (snd (sync_wait true b [] la)) = E_NIL.
 Proof.
-  exists 1, (fst (sync_wait (b_open [1;2;3] []) [Ok; ShortRead 150] [3])).
+  intros fl b la R Hn Hl.
+  apply (catch_up_core true fl b la (breach_inv true fl b R) (never_corrupt_thm fl b R) Hn Hl).
+Qed.
+
+(** The repaired defect (finding F11, fixed by 086c0cc), kept as a statement
+    about a client whose listing reports Size 0 — exactly the pre-fix behaviour
+    for every client: after a short read (clean premature EOF) of the baseline
+    file the truncated file is published locally and every later SyncAndWait
+    fails, faults or not. *)
+Theorem catch_up_after_short_baseline_read_refuted :
+  exists fl b, breach false fl b /\
+    forall la, so_err (snd (sync_wait false b [] la)) <> E_NIL /\ fst (sync_wait false b [] la) = b.
+Proof.
+  exists 1, (fst (sync_wait false (b_open [1;2;3] []) [Ok; ShortRead 150] [3])).
   split.
   - apply breach_sync; [apply breach_open|].
     + unfold run. simpl. split; [lia|]. split; [lia|]. intros t. simpl. lia.
@@ -221,9 +274,11 @@ Proof.
 Qed.
 
 (** satisfiable and non-trivial: meta directory lost over a replica 1..3, the
-    listing of init fails once, then everything works and the positions meet *)
+    listing of init fails once, then the baseline fetch is cut short, then
+    everything works and the positions meet *)
 Example behind_example :
   map (fun o => (so_err o, so_pos o))
-      (snd (sync_waits (b_open [1;2;3] []) [([FailBefore], []); ([], [3;4]); ([], [3;4;5])]))
-  = [(1, 0); (0, 4); (0, 5)].
+      (snd (sync_waits true (b_open [1;2;3] [])
+              [([FailBefore], []); ([Ok; ShortRead 150], []); ([], [3;4]); ([], [3;4;5])]))
+  = [(1, 0); (1, 0); (0, 4); (0, 5)].
 Proof. vm_compute. reflexivity. Qed.
